@@ -22,6 +22,7 @@ structure PulseIn where
   dd : Bool := false
   ref : Nat := 0
   sum : PulseSummary := {}
+  sumAdj : PulseSummary := sum  -- ORACLE summary of the pulse lengthened to the adjusted duration
   const : Bool := false     -- both waveforms constant, with the values below
   amp : Rat := 0
   det : Rat := 0
@@ -195,9 +196,14 @@ def validateAndAdjust (c : ChanState) (p : PulseIn) (phaseRef : Option Rat) :
   | .ok d =>
   if d ≠ p.dur ∧ !p.resizable then .error .notResizable
   else
+  -- the lengthened pulse has other samples: it is validated as scheduled (repair of F37)
+  match (if d ≠ p.dur then validatePulse c p.sumAdj else .ok ()) with
+  | .error e => .error e
+  | .ok _ =>
   let ph := fmtPhase (p.phase + (match phaseRef with | some r => r | none => 0))
   .ok { dur := d, phase := ph, post := p.post, fallStd := p.fallStd, fallEom := p.fallEom,
-        dd := p.dd, ref := p.ref, sum := p.sum, const := p.const, amp := p.amp, det := p.det }
+        dd := p.dd, ref := p.ref, sum := if d ≠ p.dur then p.sumAdj else p.sum,
+        const := p.const, amp := p.amp, det := p.det }
 
 /-- `argmin |opts - x|` (first on ties); `none` when there are no options. -/
 def closestIdx (opts : List Rat) (x : Rat) : Option Nat :=
